@@ -430,6 +430,28 @@ func runR42(c *Ctx) {
 					}
 				}
 				c.ok(key, p.instrPos(st), fmt.Sprintf("%d source cell(s), all read at the destination position", len(reads)))
+			default:
+				// 6d: a slot computed from a row by arithmetic (`result[p+1] = f(data[p])`, `result[k+1] = data[index[k]]`):
+				// rows are identities; the neighbour's slot belongs to another row (and the last one is out of range)
+				off, isOff := idx.(*ssa.BinOp)
+				if !isOff || off.Op != token.ADD && off.Op != token.SUB || f.isStorage(ia.X) {
+					return
+				}
+				var row ssa.Value
+				if k, isK := constInt(off.Y); isK && k != 0 {
+					row = stripConvInt(off.X)
+				} else if k, isK := constInt(off.X); isK && k != 0 && off.Op == token.ADD {
+					row = stripConvInt(off.Y)
+				}
+				if row == nil {
+					return
+				}
+				for _, r := range f.posReads(st.Val, res) {
+					if r == row || rowOfPos(r) == row {
+						c.bad(fnm+"|store beside the row", p.instrPos(st), fmt.Sprintf("the value computed from the cell of row %s is stored at %s %s a constant: it lands in the slot of a neighbouring row (and the last row is written out of range)", row.Name(), row.Name(), off.Op))
+						return
+					}
+				}
 			}
 		})
 	}
